@@ -45,6 +45,8 @@ structure CrdtOps (σ ω : Type) where
   vSpec : List ω → List ω → ω → String := fun _ _ _ => ""
   /-- C17: predicted `validate_merge` verdict from the log and the two knowledge lists ("" = no claim) -/
   vmSpec : List ω → List ω → List ω → String := fun _ _ _ => ""
+  /-- C12 (`RO`): the sequence of element identities a state shows (`none` = the type is not a sequence) -/
+  elements : Option (σ → List String) := none
 
 structure MState (σ ω : Type) where
   reps : List σ
@@ -378,6 +380,27 @@ def exec (T : CrdtOps σ ω) (m : MState σ ω) (toks : List String) : MState σ
               match ph3.2.2 with
               | some f => (m, f)
               | none => (m, "absorb=ok n=" ++ toString ph3.2.1)
+  | ["RO"] =>
+    -- relative-order oracle (C12): over all pairs of replicas / snapshots the common elements appear in the same
+    -- relative order, and no element occurs twice in one state
+    match T.elements with
+    | none => (m, "noro")
+    | some el =>
+      let reps := (List.range m.reps.length).filterMap (fun i => (m.reps[i]?).map (fun s => ("r" ++ toString i, el s)))
+      let snaps := (m.snaps.mergeSort (fun a b => a.1 ≤ b.1)).map (fun (n, s, _) => ("s" ++ n, el s))
+      let all := reps ++ snaps
+      let claim := if m.taint.any id || m.snapTaint.any (·.2) then "" else "ro=ok"
+      match all.find? (fun x => x.2.eraseDups.length != x.2.length) with
+      | some x => (m, withSpec ("ro=FAIL:dup:" ++ x.1) claim)
+      | none =>
+        let rec goRO (l : List (String × List String)) (pairs : Nat) : String :=
+          match l with
+          | [] => "ro=ok pairs=" ++ toString pairs
+          | x :: t =>
+            match t.find? (fun y => x.2.filter (fun e => y.2.contains e) != y.2.filter (fun e => x.2.contains e)) with
+            | some y => "ro=FAIL:" ++ x.1 ++ ":" ++ y.1
+            | none => goRO t (pairs + t.length)
+        (m, withSpec (goRO all 0) claim)
   | ["E"] =>
     -- convergence oracle evaluated on the model (always `ok` where the theorems apply)
     let reps := (List.range m.reps.length).filterMap (fun i =>
